@@ -1,7 +1,8 @@
 (* C10 - history recalls submitted lines newest-first, deduplicated, oldest evicted first. Statements only.
    HRep cap h s: the byte-level history h (NUL-separated buffer, byte cursor) represents the abstract history s
    (entry list oldest first, position); in particular entries are NUL-free, non-empty, pairwise distinct and fit. *)
-From EC Require Import Base Model.History Spec.HistSpec Proofs.ListFacts Proofs.HistoryProofs.
+From EC Require Import Base Model.Input Model.History Model.Sink Model.Cli Spec.HistSpec Spec.Session Proofs.ListFacts Proofs.HistoryProofs
+  Proofs.SinkOk Proofs.SafetyProofs Proofs.SessionProofs.
 
 (* (1) refinement: every operation (push of ANY line, older, newer) on a represented state does not panic, returns what the
    abstract history returns - byte for byte - and ends in a represented state; every history size *)
@@ -62,6 +63,18 @@ Proof.
   - intros ->. reflexivity.
 Qed.
 Print Assumptions C10_navigation.
+
+(* through the whole Cli: for every byte received the history buffer afterwards represents the abstract history of the abstract session
+   after the decoded event: Enter records the line exactly as it stands (hs_push of its bytes, blanks included), Up / Down move the
+   position (hs_older / hs_newer) and show the entry, nothing else touches it - every buffer size, feature set, command set, handler *)
+Theorem C10_cli : forall feats cs handler, cmdset_ok cs -> forall cap hcap b s a r s', byte b -> SRel cap hcap s a ->
+  api_process_byte okT feats cs handler b s = (r, s') ->
+  r = Ok tt /\ HRep hcap (hist s') (ahist (fst (astep_opt feats cs handler cap hcap a (snd (accept (ig s) b))))).
+Proof.
+  intros feats cs handler Hcs cap hcap b s a r s' Hb HS E.
+  destruct (process_byte_refines feats cs handler Hcs cap hcap b s a r s' Hb HS E) as (-> & (_ & H & _) & _). auto.
+Qed.
+Print Assumptions C10_cli.
 
 Example C10_nonvacuous :
   let os := [HPush [97;98]; HPush [99]; HPush [0xC3;0xA9]; HPush [97;98]; HOlder; HOlder; HOlder; HOlder; HNewer; HPush [100;101;102;103]; HOlder; HOlder] in
